@@ -10,7 +10,12 @@ Tie (this file): correspondence
       parser and taxonomy;
   (b) the helper functions of make_db.py / label_programs.py on synthetic inputs (random graphs with
       cycles and dangling targets, token-level bounded-exhaustive label names, random span lists).
-Exercised only: json.dumps + compaction regex + json.loads, sqlite3.
+  (c) the JSON TEXT layer (Model/JsonText.lean; proved: C11_json_roundtrip, C11_compact_only_span_lists, …): the real
+      get_json() text BYTE FOR BYTE against the model's compact (dumps2 data ++ "\n") on every generated directory and on
+      adversarial data of the database shape (look-alike span lists in sources, control characters, non-ASCII, astral
+      characters, lone surrogates, quotes, backslashes); json.dumps vs dumps2 on random values; the compaction scanner vs
+      regex.sub with the pattern READ FROM the source of get_json on arbitrary texts; the model's parser vs json.loads.
+Exercised only: sqlite3.
 """
 import contextlib
 import io
@@ -304,6 +309,7 @@ def run_real(root: Path, out_dir: Path, cleanup="full"):
         return res
     res["db_obj"] = db
     text = db.get_json()
+    res["data"] = get_json_data(db)
     res["json_text"] = text
     try:
         res["json"] = json.loads(text)
@@ -442,6 +448,9 @@ def judge_dir(ctx, drv, files, root, out_dir, cleanup="full"):
                 "what": "json.loads(get_json()) differs from the data computed in memory: "
                         + str(first_diff(res["json"], res["memory"])),
                 "impl": {"at": first_diff(res["json"], res["memory"])}}
+    tv = judge_text(ctx, drv, res["data"], res["json_text"], "json-text.directories")
+    if tv is not None:
+        return tv
     if not res["json_file_same"] or not res["json_rewrite_same"]:
         return {"kind": "violation", "what": "write_json wrote something else than get_json() (first or second write "
                                              "onto the same file)", "impl": None}
@@ -923,6 +932,291 @@ def real_relabel(paths, names):
     return {"names": [l.name for l in out[0].labels], "direct": sorted(direct[paths[0]])}
 
 
+
+# ----------------------------------------------------------- the JSON text layer (Model/JsonText.lean)
+
+class OutsideShape(Exception):
+    pass
+
+
+def enc(v):
+    """Python value -> wire encoding of the model's `J` (order preserving, strings as code points)."""
+    if isinstance(v, bool) or v is None or isinstance(v, float):
+        raise OutsideShape(repr(v))
+    if isinstance(v, int):
+        if v < 0:
+            raise OutsideShape(repr(v))
+        return v
+    if isinstance(v, str):
+        return {"s": [ord(c) for c in v]}
+    if isinstance(v, (list, tuple)):
+        return {"a": [enc(x) for x in v]}
+    if isinstance(v, dict):
+        for k in v:
+            if not isinstance(k, str):
+                raise OutsideShape(repr(k))
+        return {"o": [[[ord(c) for c in k], enc(x)] for k, x in v.items()]}
+    raise OutsideShape(repr(v))
+
+
+def dec(e):
+    """wire encoding -> Python value (objects as lists of pairs are turned into dicts: no duplicate keys here)."""
+    if isinstance(e, int):
+        return e
+    if "s" in e:
+        return "".join(map(chr, e["s"]))
+    if "a" in e:
+        return [dec(x) for x in e["a"]]
+    return {"".join(map(chr, k)): dec(x) for k, x in e["o"]}
+
+
+def cps(text):
+    return [ord(c) for c in text]
+
+
+def uncps(l):
+    return "".join(map(chr, l))
+
+
+def plain(v):
+    """what json.loads must give back: tuples as lists."""
+    if isinstance(v, (list, tuple)):
+        return [plain(x) for x in v]
+    if isinstance(v, dict):
+        return {k: plain(x) for k, x in v.items()}
+    return v
+
+
+def get_json_data(db):
+    """The `data` dictionary exactly as `TagDatabase.get_json` assembles it."""
+    return {
+        "programs": db.programs_infos,
+        "labels": dict(sorted(db.labels.items())),
+        "taxa": dict(sorted(db.taxa.items())),
+        "importations": dict(db.importations.items()),
+        "exportations": dict(db.exportations.items()),
+    }
+
+
+def fake_db(data):
+    """A TagDatabase whose fields are given (no directory walked): the REAL get_json runs on them."""
+    from paroxython.make_db import TagDatabase
+    db = TagDatabase.__new__(TagDatabase)
+    db.programs_infos = data["programs"]
+    db.labels, db.taxa = data["labels"], data["taxa"]
+    db.importations, db.exportations = data["importations"], data["exportations"]
+    return db
+
+
+def text_diff(a, b):
+    i = next((k for k in range(min(len(a), len(b))) if a[k] != b[k]), min(len(a), len(b)))
+    return {"offset": i, "impl": a[max(0, i - 30):i + 30], "model": b[max(0, i - 30):i + 30]}
+
+
+def judge_text(ctx, drv, data, text, stream):
+    """Byte-for-byte: the real get_json() text against the model's compact (dumps2 data ++ "\n").
+    Returns None on agreement, else a violation (json.loads(text) is not the data) or a broken correspondence."""
+    try:
+        e = enc(data)
+    except OutsideShape as exc:
+        return {"kind": "broken", "what": f"{stream}: the data holds a value outside the model's JSON shape: {exc}"}
+    m = drv.call("c11.dumps", v=e)
+    mtext = uncps(m["text"])
+    ctx.dist(f"{stream}.compacted_span_lists", uncps(m["dumps"]).count("[\n") - mtext.count("[\n"))
+    if m["ok"] and not m["back"]:
+        return {"kind": "broken", "what": f"{stream}: the model's loads (compact (dumps2 v ++ newline)) is not v",
+                "model": {"text": mtext[:400]}}
+    if text == mtext:
+        return None
+    ctx.cov["disagreements_checked"] += 1
+    try:
+        back = json.loads(text)
+    except ValueError as exc:
+        return {"kind": "violation", "what": "get_json() is not valid JSON", "impl": {"error": str(exc)[:200], **text_diff(text, mtext)},
+                "model": {"text": mtext[:400]}, "spec": "C11_json_roundtrip: loads (get_json text) = data"}
+    if back != plain(data):
+        return {"kind": "violation",
+                "what": "json.loads(get_json()) differs from the data computed in memory: " + str(first_diff(back, plain(data))),
+                "impl": text_diff(text, mtext), "model": {"text": mtext[:400]},
+                "spec": "C11_json_roundtrip: loads (get_json text) = data"}
+    return {"kind": "broken", "what": f"{stream}: get_json() text differs from the model's text (same value): {text_diff(text, mtext)}"}
+
+
+LOOKALIKE = ["[\n 1,\n 2\n]", "[\n      3,\n      8\n    ],\n", " [\n1,\n2\n] ", "[\n  1,\n  2\n]\n", "x = [\n    10,\n    20\n]\n",
+             "[ 1, 2 ] + [3]", "\n[\n7,\n8\n],\n", "\t[\n\t1,\n\t2\n\t]\t", "\x0c[\n\x0b1,\n\x1c2\n\x1f]\x85", "[\n１,\n２\n] "]
+ODDCH = ['"', "\\", "\\n", "\\u0041", "/", "\n", "\r", "\t", "\b", "\f", "\x00", "\x01", "\x1f", "\x7f", "\x80", "\x9f", "\xa0", "é",
+         " ", " ", "퟿", "", "￿", "\U00010000", "😀", "\U0010ffff", "\ud800", "\udbff", "\udc00", "\udfff",
+         "\udc80", "😀", "\udc00\ud800", "\ud800a", "a", "z", " ", "  ", "0", "12", "[", "]", ",", "{", "}", ":"]
+
+
+def rand_str(rng, adversarial=True):
+    if not adversarial:
+        return "".join(rng.choice("abc/_.py012") for _ in range(rng.randint(0, 6)))
+    n = rng.choice([0, 1, 1, 2, 3, 5, 9])
+    return "".join(rng.choice(LOOKALIKE) if rng.random() < 0.3 else rng.choice(ODDCH) for _ in range(n))
+
+
+def rand_spans(rng):
+    return [[rng.choice([0, 1, 7, 10, 99, 100, 12345678901234567890]), rng.randint(0, 300)] for _ in range(rng.choice([0, 1, 1, 2, 3]))]
+
+
+def rand_value(rng, depth):
+    r = rng.random()
+    if depth == 0 or r < 0.25:
+        return rng.choice([0, 1, 9, 10, 42, 2 ** 64]) if rng.random() < 0.4 else rand_str(rng)
+    if r < 0.45:
+        return rand_spans(rng)
+    if r < 0.7:
+        return [rand_value(rng, depth - 1) for _ in range(rng.choice([0, 1, 2, 2, 3]))]
+    return {rand_str(rng, rng.random() < 0.5): rand_value(rng, depth - 1) for _ in range(rng.choice([0, 1, 2, 3]))}
+
+
+def rand_data(rng):
+    """A value of the database shape with adversarial strings everywhere."""
+    paths = [rand_str(rng, rng.random() < 0.3) + ".py" for _ in range(rng.choice([0, 1, 2, 3]))]
+    paths = list(dict.fromkeys(paths))
+
+    def names():
+        return {rand_str(rng, rng.random() < 0.4): rand_spans(rng) for _ in range(rng.choice([0, 1, 2, 4]))}
+
+    def index():
+        return {rand_str(rng, rng.random() < 0.4): rng.sample(paths, rng.randint(0, len(paths))) for _ in range(rng.choice([0, 1, 3]))}
+    programs = {p: {"timestamp": rand_str(rng, rng.random() < 0.3), "source": rand_str(rng), "labels": names(), "taxa": names()}
+                for p in paths}
+    return {"programs": programs, "labels": index(), "taxa": index(), "importations": {p: rng.sample(paths, rng.randint(0, len(paths))) for p in paths},
+            "exportations": {p: rng.sample(paths, rng.randint(0, len(paths))) for p in paths}}
+
+
+def has_pair(v):
+    """a high surrogate code point directly followed by a low one somewhere in a string of v."""
+    import re
+    if isinstance(v, str):
+        return re.search("[\ud800-\udbff][\udc00-\udfff]", v) is not None
+    if isinstance(v, (list, tuple)):
+        return any(has_pair(x) for x in v)
+    if isinstance(v, dict):
+        return any(has_pair(k) or has_pair(x) for k, x in v.items())
+    return False
+
+
+def the_regex():
+    """The pattern and the replacement of the compaction, read from the source of the real get_json."""
+    import inspect
+    import re
+    from paroxython.make_db import TagDatabase
+    src = inspect.getsource(TagDatabase.get_json)
+    m = re.search(r'regex\.sub\(r"(.*)", r"(.*)", text\)', src)
+    if not m:
+        raise core.MachineryError("get_json no longer applies regex.sub(r\"…\", r\"…\", text)")
+    return m.group(1), m.group(2)
+
+
+def shape_pairs(pairs):
+    d = {}
+    for k, v in pairs:
+        if k in d:
+            raise OutsideShape("duplicate key")
+        d[k] = v
+    return d
+
+
+def stream_jsontext(ctx, drv):
+    import regex
+    quick = ctx.tier == "quick"
+    rng = ctx.rng
+    # (1) the real get_json on adversarial data of the database shape, byte for byte against the model
+    for i in range(150 if quick else 3000):
+        db = fake_db(rand_data(rng))
+        text = db.get_json()
+        data = get_json_data(db)
+        v = judge_text(ctx, drv, data, text, "json-text.adversarial")
+        pair = has_pair(data)
+        spans = text.count("[") - text.count("[\n") - text.count("[]")
+        ctx.count("json-text.adversarial", json.dumps(data, sort_keys=True), nontrivial=spans > 0 and any(
+            any(x in info["source"] for x in LOOKALIKE) for info in data["programs"].values()))
+        ctx.dist("json-text.surrogate_pair" if pair else "json-text.well_formed_strings")
+        if v is None and not pair:
+            try:
+                back = json.loads(text)
+            except ValueError:
+                back = None
+            if back != plain(data):
+                v = {"kind": "violation", "what": "json.loads(get_json()) differs from the data: " + str(first_diff(back, plain(data))),
+                     "impl": {"text": text[:400]}, "spec": "C11_json_roundtrip"}
+        if v is not None:
+            if v["kind"] == "broken":
+                ctx.broken.append("corr:json-text.adversarial")
+                ctx.notes.append({"data_json": json.dumps(data), "what": v["what"].encode("ascii", "backslashreplace").decode()})
+            else:
+                ctx.violations.append({"what": v["what"].encode("ascii", "backslashreplace").decode(), "replay": {"kind": "json-text", "data_json": json.dumps(data),
+                                                                     "impl": json.dumps(v.get("impl")), "model": json.dumps(v.get("model")),
+                                                                     "spec": v.get("spec")},
+                                       "signature": None})
+            break
+    # (2) json.dumps(v, indent=2) against dumps2 on random values of the shape (any nesting)
+    for i in range(300 if quick else 6000):
+        val = rand_value(rng, rng.choice([1, 2, 3, 4]))
+        impl = json.dumps(val, indent=2)
+        m = drv.call("c11.dumps", v=enc(val))
+        ctx.count("json-dumps", impl, nontrivial=isinstance(val, (list, dict)) and len(val) > 0)
+        ctx.dist("json-dumps." + type(val).__name__)
+        if uncps(m["dumps"]) != impl:
+            ctx.cov["disagreements_checked"] += 1
+            ctx.broken.append("corr:json-dumps")
+            ctx.notes.append({"value_json": json.dumps(val), "diff": json.dumps(text_diff(impl, uncps(m["dumps"])))})
+            break
+        if m["ok"] != (not has_pair(val)):
+            ctx.broken.append("corr:json-dumps.ok")
+            ctx.notes.append({"value_json": json.dumps(val), "model_ok": m["ok"]})
+            break
+        if m["ok"] and not m["back"]:
+            ctx.broken.append("corr:json-loads.roundtrip")
+            ctx.notes.append({"value_json": json.dumps(val), "what": "model: loads (compact (dumps2 v ++ newline)) is not v"})
+            break
+    # (3) the compaction scanner against regex.sub with the pattern of the real code, on arbitrary texts; and
+    # (4) the model's parser against json.loads on the compacted / mutilated texts
+    pat, rep = the_regex()
+    frags = [x for x in LOOKALIKE if "１" not in x] + ['"', "\\", "\\\"", "\n", " ", "  ", "[", "]", ",", "1", "23", "[\n", "\n]", ",\n", "]\n", "],\n", "] ", "{", "}", ":",
+                         '"k": ', "[]", "{}", "\x0c", "\x1c", "\xa0", " ", "a", "é", "\\u00e9", "\\ud83d\\ude00", "\\ud83d", "01", "\t", "\r"]
+    for i in range(600 if quick else 12000):
+        if i % 3 == 0:
+            base = json.dumps(rand_value(rng, 3), indent=2) + "\n"
+            k = rng.randrange(len(base) + 1)
+            t = base if rng.random() < 0.3 else base[:k] + rng.choice(frags) + base[k + rng.choice([0, 0, 1, 3]):]
+        else:
+            t = "".join(rng.choice(frags) for _ in range(rng.randint(0, 14)))
+        impl = regex.sub(pat, rep, t)
+        m = uncps(drv.call("c11.compact", t=cps(t))["r"])
+        ctx.count("compact-texts", t, nontrivial=impl != t)
+        if impl != m:
+            ctx.cov["disagreements_checked"] += 1
+            ctx.broken.append("corr:compact-texts")
+            ctx.notes.append({"text": json.dumps(t), "impl": json.dumps(impl), "model": json.dumps(m)})
+            break
+        for u in (t, impl):
+            if any(c in u for c in "\x0b\x0c\x1c\x1d\x1e\x1f\x85\xa0 "):
+                ctx.dist("loads.exotic-white-space(skipped)")
+                continue
+            try:
+                pv = dec(enc(json.loads(u, object_pairs_hook=shape_pairs)))
+            except OutsideShape:
+                ctx.dist("loads.outside-grammar(skipped)")
+                continue
+            except (ValueError, RecursionError):
+                pv = None
+            mv = drv.call("c11.loads", t=cps(u))["v"]
+            mv = None if mv is None else dec(mv)
+            ctx.count("loads-texts", u, nontrivial=pv is not None)
+            if mv != pv:
+                ctx.cov["disagreements_checked"] += 1
+                ctx.broken.append("corr:loads-texts")
+                ctx.notes.append({"text": json.dumps(u), "json.loads": json.dumps(pv), "model": json.dumps(mv)})
+                break
+        else:
+            continue
+        break
+
+
 # ------------------------------------------------------------------------------------- run
 
 def run(ctx):
@@ -932,18 +1226,24 @@ def run(ctx):
     ctx.cov["rule"] = (
         "directories: distinct generated directory (file set + texts) whose closure of internal imports is non-empty; "
         "closure-graphs/exportations: distinct graph with at least one edge; relabel-names: distinct (path set, label "
-        "name) that the real relabelling changes; prepared-spans/inverted-index: distinct non-empty input"
+        "name) that the real relabelling changes; prepared-spans/inverted-index: distinct non-empty input; "
+        "json-text.adversarial: distinct data with a compacted span list AND a look-alike span list inside a source; "
+        "json-dumps: distinct non-empty container; compact-texts: distinct text the real regex.sub changes; loads-texts: "
+        "distinct text json.loads accepts"
     )
     try:
         stream_helpers(ctx, drv)
+        stream_jsontext(ctx, drv)
         n_dirs = 110 if ctx.tier == "quick" else 900
         stream_dirs(ctx, drv, n_dirs)
     finally:
         drv.close()
     ctx.cov["proved"] = [t for t, ax in ctx.cov.get("theorems", {}).items() if ax != "DOES-NOT-CHECK"]
     ctx.cov["exercised_only"] = [
-        "json.dumps + the span-compaction regex + json.loads round trip (json.loads(get_json()) is compared with the "
-        "in-memory data and with the model's value on every generated directory)",
+        "agreement of the JSON text model (dumps2 = json.dumps(indent=2, ensure_ascii), compact = the regex.sub of get_json, "
+        "loads = json.loads on the grammar of the database) with the Python: streams json-text.directories (inside "
+        "`directories`), json-text.adversarial, json-dumps, compact-texts, loads-texts — the round trip itself is PROVED "
+        "(C11_json_roundtrip)",
         "sqlite3 round trip (rows read back from the file written by write_sqlite are compared with the model's rows)",
         "stored source is verbatim the cleaned, hint-free source (the source is an input of the model; C12/C13 are about it)",
         "agreement of the R2 string matchers (import label regexes) with the regex engine: token-level bounded-exhaustive stream",
@@ -954,10 +1254,16 @@ def run(ctx):
         "hand transcription of the two import-label regexes (searchImport?, internalTarget?) — validated by the "
         "bounded-exhaustive relabel stream",
         "the executable cross-check `c11.spec` (Kleene iteration / comprehensions) is a second opinion, not a theorem",
+        "hand transcription of json.encoder (py_encode_basestring_ascii, indent=2 layout), of the compaction regex as the "
+        "scanner `matchAt` (every quantifier is followed by an atom it cannot match, so greedy = the only match; `\\s` of "
+        "the regex module = Unicode White_Space, `\\d` restricted to ASCII digits) and of json.decoder's string scanner — "
+        "validated byte for byte by the json-text / json-dumps / compact-texts / loads-texts streams",
     ]
     ctx.assumptions += [
         "program paths of one collection are pairwise distinct (they are distinct files of one directory)",
         "ignore_timestamps=True (the timestamp is an opaque input string of the model)",
+        "C11_json_roundtrip: numbers are naturals (line numbers), no string holds a high surrogate code point directly "
+        "followed by a low one (json.loads(json.dumps(s)) itself merges them; sources are decoded from UTF-8: no surrogate)",
     ]
     if (not ctx.proofs_ok or ctx.broken) and not any(v.get("signature") is None for v in ctx.violations):
         ctx.violations.append({
@@ -984,6 +1290,18 @@ def replay(ctx, path):
             print(json.dumps({k: v.get(k) for k in ("kind", "what", "impl", "model", "spec", "signature")},
                              indent=1, ensure_ascii=False, default=str))
             return 1 if v["kind"] == "violation" else 0
+        if kind == "json-text":
+            db = fake_db(json.loads(obj["data_json"]))
+            text = db.get_json()
+            data = get_json_data(db)
+            m = drv.call("c11.dumps", v=enc(data))
+            try:
+                back = json.loads(text)
+            except ValueError as exc:
+                back = f"ValueError: {exc}"
+            print(json.dumps({"impl": text, "model": uncps(m["text"]), "spec": {"json.loads(impl) == data": back == plain(data),
+                                                                                   "model loads(text) == data": m["back"]}}, indent=1))
+            return 1 if (text != uncps(m["text"]) or back != plain(data)) else 0
         if kind == "closure":
             import paroxython.make_db as mdb
             d = {k: set(v) for k, v in obj["direct"].items()}
